@@ -344,7 +344,8 @@ func (x *Exec) mutexUnlock(fr *frame, addr Value, read bool) {
 		}
 		ls.writer = false
 	}
-	x.schedPoint()
+	// no scheduling point after a release: the next visible operation of this thread (lock,
+	// channel operation, yield, exit) is one, and the code in between is thread-local (DRF-SC)
 }
 
 // ---- WaitGroup
